@@ -69,6 +69,16 @@ fn materialise(c: &Case) -> Vec<Rec> {
             recs[idx].seq = crate::util::Bytes(super::c01::stretched(&recs[idx].seq, min_len));
         }
     }
+    // a tenth of the plain cases: the records repeated in a cycle (distinct names) up to 1000 / 1024 / 1025 / 1300 / 2049
+    // records, more than any fixed number of slices, rows or records a writer may handle per call
+    if c.edge.is_none() && c.poly.is_none() && c.stretch.is_none() && !recs.is_empty() && recs.len() <= 60 {
+        let h = crate::util::fnv64(format!("{}:{}:{}:{}", recs.len(), c.k, c.bin_size, c.threads).as_bytes());
+        if h % 10 == 1 {
+            let n = [1000usize, 1024, 1025, 1300, 2049][(h >> 8) as usize % 5];
+            let base = recs.clone();
+            recs = (0..n).map(|i| { let r = &base[i % base.len()]; Rec { id: format!("{}_{}", r.id, i), desc: r.desc.clone(), seq: if r.seq.0.len() > 300 { crate::util::Bytes(r.seq.0[..300].to_vec()) } else { r.seq.clone() } } }).collect();
+        }
+    }
     recs
 }
 
